@@ -3,10 +3,47 @@
 Continuous coordinates are dyadic rationals k/8 (stored in scenarios as the integer numerator with
 "den": 8), for which +, min/max, abs and Python's float % are exact: "exactly" in the statements can
 be checked with == and rounding cannot raise a false alarm. Grid worlds get integers (den 1)."""
-from ECAgent.Core import Environment
+from ECAgent.Core import Agent, Component, Environment
 from ECAgent.Environments import DiscreteWorld, GridWorld, LineWorld, PositionComponent, SpaceWorld  # noqa: F401
 
 KINDS = ["plain", "space", "discrete", "line", "grid"]
+
+
+class Note(Component):
+    pass
+
+
+class HomePosition(PositionComponent):
+    """Another location kept by the agent (components are keyed by their exact class: this is not the agent's position)."""
+
+
+def gen_extras(rng, n, coord):
+    """What some agents bring along before they are placed: components of their own - among them a SUBCLASS of
+    PositionComponent holding some other location - or being an environment themselves. coord(ax) draws a numerator."""
+    extras = []
+    if rng.random() < 0.3:
+        for k in range(n):
+            if rng.random() < 0.5:
+                extras.append({"k": k, "what": rng.choice(["home", "home", "note", "note+home", "home+note", "env", "env+home"]),
+                               "h": [coord(ax) for ax in range(3)]})
+    return extras
+
+
+def make_agents(model, n, extras, ref, ctx):
+    is_env = {ex["k"] % max(n, 1) for ex in extras if "env" in ex["what"].split("+")}
+    agents = [Environment(model, id=f"a{i}") if i in is_env else Agent(f"a{i}", model) for i in range(max(n, 1))]
+    if is_env:
+        ctx.probe("agent_is_an_environment")
+    for ex in extras:
+        a_ = agents[ex["k"] % len(agents)]
+        for what in ex["what"].split("+"):
+            if what == "note" and Note not in a_.components:
+                a_.add_component(Note(a_, model))
+            elif what == "home" and HomePosition not in a_.components:
+                h = ref.real([int(c) for c in ex["h"]])
+                a_.add_component(HomePosition(a_, model, h[0], h[1], h[2]))
+                ctx.probe("agent_with_position_subclass_component")
+    return agents
 
 
 def gen_world(rng, kinds=("space", "discrete", "line", "grid"), max_cells=48, subunit=0.0):
